@@ -161,7 +161,7 @@ Proof.
 Qed.
 
 Lemma e72 : exp (- 72) / 6 <= 1 / 20000000000.
-Proof. interval. Qed.
+Proof. interval with (i_prec 50). Qed.
 
 (* the integral over any wider symmetric range stays within 2e-9 of sqrt(2 pi) *)
 Lemma Iwide_close c : 12 <= c -> Rabs (RInt phi (- c) c - sqrt (2 * PI)) <= 2 / 1000000000.
@@ -260,9 +260,9 @@ Proof.
 Qed.
 
 Lemma k_ge_1 : 1 <= sqrt (2 * ln 2).
-Proof. interval. Qed.
+Proof. interval with (i_prec 50). Qed.
 Lemma k_le : sqrt (2 * ln 2) <= 118 / 100.
-Proof. interval. Qed.
+Proof. interval with (i_prec 50). Qed.
 
 (* on [mu - s T, mu + s T], T >= 12, the pseudo-Voigt integrates to A up to the Lorentzian
    tail 2/(pi T) and 2e-9, for every mixing fraction in [0,1] *)
